@@ -942,12 +942,12 @@ class Interp:
         c = t.flat().deps_all()
         fr.ctrl.append(fr.ctrl[-1] | c)
         env0, self0 = dict(fr.env), dict(self.ctx.selfenv)
-        fr.guards.append((txt, True, s.test, False))
+        fr.guards.append((txt, True, s.test, False, t.flat().data | t.flat().shp))
         self.refine(s.test, True)
         st1 = self.run_body(s.body)
         env1, self1 = fr.env, self.ctx.selfenv
         fr.env, self.ctx.selfenv = dict(env0), dict(self0)
-        fr.guards[-1] = (txt, False, s.test, False)
+        fr.guards[-1] = (txt, False, s.test, False, t.flat().data | t.flat().shp)
         self.refine(s.test, False)
         st2 = self.run_body(s.orelse)
         env2, self2 = fr.env, self.ctx.selfenv
